@@ -11,7 +11,6 @@ from ..spec import ripemd as R
 from .common import *
 
 BW = PKG + '.base_wallet.BaseWallet'
-PUBKEY = PKG + '.keys.PublicKey'
 SCRIPT = PKG + '.script.Script'
 LITTLE = T.const('little')
 
@@ -101,7 +100,7 @@ def run(ctx):
         with ctx.obligation('C05.PUBADDR', 'PublicKey.address', be, fa.where) as ob:
             ev = Evaluator(p, be)
             P = S('P', type='point')
-            pk = T.obj(PUBKEY, {'K': P})
+            pk = mk_pub(p, be, P)
             for comp in (True, False):
                 hh = SP.hash160(T.sec(P, T.const(comp)))
                 v, _ = ev.call_function('keys.PublicKey.h160', [pk], {'compressed': T.const(comp)})
@@ -116,6 +115,53 @@ def run(ctx):
                     same_term(ob, v, bech32('tb' if tn else 'bc', 0, hh), 'address(p2wpkh, compressed=%s, testnet=%s)' % (comp, tn), fa.where)
             v, _ = ev.call_function('keys.PublicKey.address', [pk], {'addr_type': T.const('p2sh')})
             ob.require(all(T.tag(x) == 'raise' for _, x in leaves(v)), 'an unsupported address type is refused', fa.where)
+            calls = []
+            for comp in (True, False):
+                calls.append(('h160(compressed=%s)' % comp, 'keys.PublicKey.h160', {'compressed': T.const(comp)}))
+                calls.append(('sec(compressed=%s)' % comp, 'keys.PublicKey.sec', {'compressed': T.const(comp)}))
+                for at in ('p2pkh', 'p2wpkh'):
+                    calls.append(('address(%s, compressed=%s)' % (at, comp), 'keys.PublicKey.address',
+                                  {'compressed': T.const(comp), 'addr_type': T.const(at)}))
+            check_history_free(ob, ev, pk, calls, 'PublicKey', fa.where)
+            # defaults, for a key object however it was obtained (constructor, 33- or 65-byte SEC, WIF of either flavour):
+            # the witness program / HASH160 commit to the COMPRESSED key unless the caller asks otherwise
+            enc33, enc65 = S('enc33', type='bytes', len=33), S('enc65', type='bytes', len=65)
+            kb = S('kb', type='bytes', len=32)
+            sources = [('PublicKey(point)', mk_pub(p, be, P), P)]
+            for nm, enc in (('PublicKey.parse(33-byte SEC)', enc33), ('PublicKey.parse(65-byte SEC)', enc65)):
+                pv, _ = ev.call_function('keys.PublicKey.parse', [T.clsref(PUBKEY), enc])
+                for leaf in distinct_normal_leaves(pv):
+                    sources.append((nm, leaf, T.parse_pt(enc)))
+            kv, kf = ev.construct('keys.PrivateKey', [kb])
+            for cs, leaf in normal_leaves(kv):
+                sources.append(('PrivateKey(k).K', attr_of(ev, leaf, 'K', Facts(known_at(kf, cs))), T.pt(kb)))
+            summ = dict(X.DEFAULT_SUMMARIES)
+            for comp, n in ((True, 34), (False, 33)):
+                D = S('decoded', type='bytes', len=n)
+                summ['helper.decode_base58_checksum'] = lambda ev_, fi, env, facts, D=D: (D, facts)
+                e2 = Evaluator(p, be, summaries=dict(summ))
+                wf = S('wif_str', type='str')
+                c0 = T.FALSE
+                for ch in ('K', 'L', 'c'):
+                    c0 = T.or_(c0, T.eq(T.const(ch), T.getitem(wf, T.const(0))))
+                wv, wfacts = e2.call_function('keys.PrivateKey.from_wif', [T.clsref(PKG + '.keys.PrivateKey'), wf],
+                                              facts=Facts().add(c0 if comp else T.not_(c0)))
+                for cs, leaf in normal_leaves(wv):
+                    sources.append(('PrivateKey.from_wif(%scompressed WIF).K' % ('' if comp else 'un'),
+                                    attr_of(e2, leaf, 'K', Facts(known_at(wfacts, cs))), T.pt(T.slice_(D, T.const(1), T.const(33)))))
+            ob.require(len(sources) >= 6, 'key objects from every source were obtained', fa.where, found=len(sources))
+            for nm, key, pt in sources:
+                hh = SP.hash160(T.sec(pt, T.TRUE))
+                v, _ = ev.call_function('keys.PublicKey.h160', [key])
+                same_term(ob, v, hh, 'h160() of %s defaults to the compressed encoding' % nm, fa.where)
+                v, _ = ev.call_function('keys.PublicKey.address', [key])
+                same_term(ob, v, bech32('bc', 0, hh), 'address() of %s defaults to mainnet P2WPKH of the compressed key' % nm, fa.where)
+                for tn in (True, False):
+                    v, _ = ev.call_function('keys.PublicKey.address', [key], {'testnet': T.const(tn), 'addr_type': T.const('p2wpkh')})
+                    same_term(ob, v, bech32('tb' if tn else 'bc', 0, hh), 'address(p2wpkh, testnet=%s) of %s commits to the compressed key' % (tn, nm), fa.where)
+                    v, _ = ev.call_function('keys.PublicKey.address', [key], {'testnet': T.const(tn), 'addr_type': T.const('p2pkh')})
+                    same_term(ob, v, SP.b58check(T.cat(T.const(b'\x6f' if tn else b'\x00'), hh)),
+                              'address(p2pkh, testnet=%s) of %s defaults to the compressed key' % (tn, nm), fa.where)
     # ---------------------------------------------------------------- script builders
     with ctx.obligation('C05.SCRIPT', 'script builders', None, p.get_function('script.p2pkh_script').where) as ob:
         ev = Evaluator(p, 'ecdsa')
